@@ -29,6 +29,7 @@ class BuilderWorld(World):
     stub_components = ()
     fault_kinds = ("rejected_add", "invalid_name", "invalid_offset", "misaligned_offset",
                    "duplicate_register", "add_after_freeze", "invalid_scope",
+                   "exception_unwinds_scopes",
                    "layout_rejected_overlap", "layout_rejected_name", "layout_rejected_overflow")
     assumptions = (
         "no clock and no concurrency exist for this property: sequential model-based conformance "
@@ -64,6 +65,10 @@ class BuilderWorld(World):
                     op["off"] = rng.choice([-1, "4", 1.5])
                 elif f < 11:
                     op["dup"] = rng.below(6)
+                if depth and rng.chance(0.3):
+                    op["unwind"] = rng.range(1, depth)   # only takes effect if the add is rejected
+                    if f < 11:
+                        depth -= min(depth, op["unwind"])
                 ops.append(op)
             elif k < 72 and depth < 3:
                 sc = rng.choice(["x", "y", 0, 1, "a"])
@@ -174,8 +179,10 @@ class BuilderWorld(World):
                     try:
                         r = b.add(name, reg, offset=off)
                         ok = True
-                    except (ValueError, TypeError):
+                        exc = None
+                    except (ValueError, TypeError) as ex:
                         ok = False
+                        exc = ex
                     name_ok = isinstance(name, str) and bool(name)
                     off_ok = off is None or (isinstance(off, int) and not isinstance(off, bool)
                                              and off >= 0 and off % (dw // g) == 0)
@@ -204,6 +211,23 @@ class BuilderWorld(World):
                         else:
                             stats.fault("invalid_offset")
                     hist.rec(step, "add", ok)
+                    if not ok and op.get("unwind") and ctxs:
+                        # the rejected call's exception propagates out of the enclosing `with`
+                        # blocks (the caller catches it further out and keeps using the builder)
+                        for _ in range(min(len(ctxs), int(op["unwind"]))):
+                            cm = ctxs.pop()
+                            try:
+                                swallowed = cm.__exit__(type(exc), exc, exc.__traceback__)
+                            except Exception as e2:
+                                if e2 is not exc:
+                                    raise V("leaving-a-scope-raised", step,
+                                            f"{type(e2).__name__} while unwinding scope "
+                                            f"{scopes[-1]!r}")
+                                swallowed = False
+                            if swallowed:
+                                raise V("scope-swallowed-exception", step, f"{scopes[-1]!r}")
+                            scopes.pop()
+                        stats.fault("exception_unwinds_scopes")
                 elif k == "enter":
                     sc = op.get("scope")
                     use_index = bool(op.get("idx"))
